@@ -17,6 +17,7 @@ func c13(c *core.Ctx) {
 	const cons = "chain/consensus"
 	hdr := func(f string) *types.Var { return c.FieldVar("chain/types.Header", f) }
 	checked := []string{"Time", "MinerAddress", "Height", "ParentHash"} // what verifyMiner / GetCorrectMiner and the parent lookup read
+	_ = checked
 
 	// ------------------------------------------------------------------------------------------------------------
 	c.Clause("C13.1", "the miner applies the verifier's rule to its own header: in DPoVP.MineBlock Validator.VerifyMiner(header, parent) is heeded (no successful exit and no saveNewBlock without it), header being PrepareHeader(parent)'s result, which is also what the assembler executes, seals and signs; VerifyMiner and VerifyBeforeTxProcess both resolve to verifyMiner with the validator's own mineTimeout and deputy table")
@@ -106,198 +107,7 @@ func c13(c *core.Ctx) {
 
 	// ------------------------------------------------------------------------------------------------------------
 	c.Clause("C13.2", "the checked fields (Time, MinerAddress, Height, ParentHash) are not changed between the check and the signature: closed writer set of these fields in the whole repository, none of the writers can run below DPoVP.MineBlock between PrepareHeader and the signature; Seal stores only roots/GasUsed/DeputyRoot, the sealed header is the checked header or its Copy(), and its hash is what is signed")
-	c.Run("header-immutable-after-check", func() {
-		var fields []*types.Var
-		for _, f := range checked {
-			fields = append(fields, hdr(f))
-		}
-		allowed := []string{
-			"(*chain/consensus.BlockAssembler).PrepareHeader", // builds the header, before the check
-			"(*chain/types.Header).DecodeRLP",                 // codec, into the header being decoded
-			"(*chain/types.Header).UnmarshalJSON",             // generated codec
-			"(*chain.Genesis).ToBlock",                        // genesis header
-		}
-		writers := map[*ssa.Function]bool{}
-		for _, f := range fields {
-			sites := closedWriters(c, "Header."+f.Name(), allowed, fieldStores(c, f))
-			for _, s := range sites {
-				writers[core.Outer(s.Fn)] = true
-			}
-			c.Floor("Header."+f.Name()+"-writers", len(sites), 3)
-		}
-		ss := structStores(c, c.Named("chain/types.Header"))
-		c.Check("Header:no-whole-struct-store", "who-may-write", len(ss) == 0, token.NoPos, "no `*h = Header{...}` through a pointer that is not a fresh local (%d found)", len(ss))
-
-		// what can run below DPoVP.MineBlock once the header has been prepared, up to and including the assembler call (which signs)
-		mine := c.Fn(cons + ".DPoVP.MineBlock")
-		pcs := core.CallsIn(mine, c.Method(cons+".BlockAssembler", "PrepareHeader"))
-		asms := core.CallsIn(mine, c.Method(cons+".BlockAssembler", "MineBlock"))
-		if len(pcs) != 1 || len(asms) != 1 {
-			c.Undecided("MineBlock:window", "write-set", mine.Pos(), "needs exactly one PrepareHeader and one assembler.MineBlock call")
-			return
-		}
-		byName := methodIndex(c)
-		var roots []*ssa.Function
-		for _, ci := range core.AllCalls(mine) {
-			if ci == pcs[0] || !core.ReachableAfter(pcs[0], ci) {
-				continue
-			}
-			if ci != asms[0] && core.ReachableAfter(asms[0], ci) {
-				continue // after the block has been signed
-			}
-			if _, isDefer := ci.(*ssa.Defer); isDefer {
-				continue
-			}
-			roots = append(roots, calleeFuncs(byName, ci)...)
-		}
-		scope := func(fn *ssa.Function) bool {
-			rel := core.RelPkg(fn)
-			if isTestHelper(c, fn) {
-				return false
-			}
-			// the engine, execution, accounts, VM, block types, pool and deputy table; logging, metrics, storage and the RLP reflection layer are
-			// leaves (they are handed values, never the *Header under construction)
-			for _, p := range []string{"chain/consensus", "chain/transaction", "chain/account", "chain/vm", "chain/types", "chain/txpool", "chain/deputynode", "chain/params", "common/crypto", "common/merkle"} {
-				if rel == p || strings.HasPrefix(rel, p+"/") {
-					return true
-				}
-			}
-			return false
-		}
-		r := reachBelow(c, roots, scope)
-		c.Floor("functions-below-MineBlock-after-prepare", len(r), 150)
-		for _, must := range []string{"chain/transaction.TxProcessor.ApplyTxs", cons + ".BlockAssembler.Finalize", cons + ".BlockAssembler.Seal", cons + ".SignBlock", "chain/types.NewBlock", "chain/transaction.NewEVMContext"} {
-			c.CheckTrivial("reach-control/"+must[strings.LastIndex(must, "/")+1:], "positive-control", r[c.Fn(must)], token.NoPos, "%s must be in the computed reach set (otherwise the write-set scan is vacuous)", must)
-		}
-		var bad []string
-		for w := range writers {
-			if r[w] {
-				bad = append(bad, core.FuncName(w))
-			}
-		}
-		sort.Strings(bad)
-		c.Check("no-writer-of-checked-fields-below-MineBlock", "write-set", len(bad) == 0, asms[0].Pos(),
-			"no function that stores into Header.Time/MinerAddress/Height/ParentHash may run between PrepareHeader and the signature (%d functions scanned; offenders: %s)", len(r), strings.Join(bad, ", "))
-		// the same scan, per store, for every function in the reach set (a new writer shows up here with its position)
-		n := 0
-		for fn := range r {
-			for _, s := range fieldStoresInW3(fn, fields...) {
-				n++
-				c.Check("store-below-MineBlock:"+shortFn(fn)+"#"+s.Field.Name(), "write-set", false, s.St.Pos(), "%s stores into Header.%s and can run between PrepareHeader and the signature", shortFn(fn), s.Field.Name())
-			}
-		}
-		c.Note("C13.2: %d functions may run below DPoVP.MineBlock between PrepareHeader and the signature; %d stores into checked header fields among them", len(r), n)
-
-		// Seal: the sealed header is the given header or its Copy(), and Seal stores nothing but execution products into it
-		seal := c.Fn(cons + ".BlockAssembler.Seal")
-		hset := core.Derived(seal.Params[1])
-		for _, cp := range core.CallsIn(seal, c.Method("chain/types.Header", "Copy")) {
-			if hset[cp.Common().Args[0]] {
-				for v := range core.Derived(cp.Value()) {
-					hset[v] = true
-				}
-			}
-		}
-		{
-			products := map[string]bool{"VersionRoot": true, "LogRoot": true, "TxRoot": true, "GasUsed": true, "DeputyRoot": true}
-			st := c.Struct("chain/types.Header")
-			var all []*types.Var
-			for i := 0; i < st.NumFields(); i++ {
-				all = append(all, st.Field(i))
-			}
-			k := 0
-			var walk func(fn *ssa.Function)
-			walk = func(fn *ssa.Function) {
-				for _, s := range fieldStoresInW3(fn, all...) {
-					k++
-					base := s.St.Addr.(*ssa.FieldAddr).X
-					c.Check("Seal:store#"+s.Field.Name(), "write-set", hset[base] && products[s.Field.Name()], s.St.Pos(),
-						"Seal may only store execution products, and only into the header it seals (field %s)", s.Field.Name())
-				}
-				for _, a := range fn.AnonFuncs {
-					walk(a)
-				}
-			}
-			walk(seal)
-			c.Floor("Seal/header-stores", k, 5)
-			nb := core.CallsIn(seal, c.FuncObj("chain/types.NewBlock"))
-			okNB := len(nb) == 1 && hset[nb[0].Common().Args[0]]
-			if okNB {
-				d := core.Derived(nb[0].Value())
-				for _, ret := range core.Returns(seal) {
-					if !d[core.RetVal(ret, 0)] {
-						okNB = false
-					}
-				}
-			}
-			c.Check("Seal:returns NewBlock(header or header.Copy())", "value-flow", okNB, seal.Pos(), "the sealed block carries the checked header (or its field-by-field copy)")
-		}
-		// Header.Copy returns a fresh cell initialised from the receiver
-		cpFn := c.Fn("chain/types.Header.Copy")
-		okFresh := len(core.Returns(cpFn)) > 0
-		for _, ret := range core.Returns(cpFn) {
-			al, isAl := ret.Results[0].(*ssa.Alloc)
-			if !isAl {
-				okFresh = false
-				continue
-			}
-			init := false
-			for _, ref := range *al.Referrers() {
-				if st, isSt := ref.(*ssa.Store); isSt && st.Addr == al {
-					if ld, isLd := st.Val.(*ssa.UnOp); isLd && ld.Op == token.MUL && ld.X == cpFn.Params[0] {
-						init = true
-					}
-				}
-			}
-			if !init {
-				okFresh = false
-			}
-		}
-		c.Check("Header.Copy:fresh cell ← *h", "value-flow", okFresh, cpFn.Pos(), "Copy returns a new Header initialised with every field of the receiver")
-		nbFn := c.Fn("chain/types.NewBlock")
-		okHdr := false
-		for _, s := range fieldStoresInW3(nbFn, c.FieldVar("chain/types.Block", "Header")) {
-			okHdr = s.St.Val == nbFn.Params[0]
-		}
-		c.Check("NewBlock:Header←header param", "value-flow", okHdr, nbFn.Pos(), "NewBlock keeps the header pointer it is given")
-
-		// BlockAssembler.MineBlock: executes and seals the checked header, signs the hash of the sealed block, then only adds the signature
-		am := c.Fn(cons + ".BlockAssembler.MineBlock")
-		sealObj := c.Method(cons+".BlockAssembler", "Seal")
-		sign := c.FuncObj(cons + ".SignBlock")
-		seals := core.CallsIn(am, sealObj)
-		signs := core.CallsIn(am, sign)
-		okAM := len(seals) == 1 && len(signs) == 1
-		if okAM {
-			okAM = seals[0].Common().Args[1] == am.Params[1] && core.Dominates(seals[0], signs[0]) &&
-				sliceCallOn(core.Slice(signs[0].Common().Args[0]), c.Method("chain/types.Block", "Hash"), seals[0].Value())
-			for _, g := range core.CallsIn(am, c.Method("chain/transaction.TxProcessor", "ApplyTxs")) {
-				if g.Common().Args[1] != am.Params[1] || !core.Dominates(g, seals[0]) {
-					okAM = false
-				}
-			}
-			d := core.Derived(seals[0].Value())
-			for _, ret := range core.Returns(am) {
-				if v := core.RetVal(ret, 0); !core.IsNilConst(v) && !d[v] {
-					okAM = false
-				}
-			}
-		}
-		c.Check("assembler.MineBlock:Seal(checked header)≺SignBlock(sealed.Hash)", "order", okAM, am.Pos(), "the block that is signed and returned is the sealed copy of the checked header")
-		heeded(c, am, sign, core.ErrNonNil, 1, nil)
-		if okAM {
-			st := c.Struct("chain/types.Header")
-			var all []*types.Var
-			for i := 0; i < st.NumFields(); i++ {
-				all = append(all, st.Field(i))
-			}
-			sig := core.ResultValues(signs[0])[0]
-			for _, s := range fieldStoresInW3(am, all...) {
-				ok := s.Field.Name() == "SignData" && sig != nil && core.Derived(sig)[s.St.Val] && core.Dominates(signs[0], s.St)
-				c.Check("assembler.MineBlock:store#"+s.Field.Name(), "write-set", ok, s.St.Pos(), "after sealing, the only header store is SignData ← SignBlock's result")
-			}
-		}
-	})
+	c.Run("header-immutable-after-check", func() { c13HeaderImmutable(c) })
 
 	// ------------------------------------------------------------------------------------------------------------
 	c.Clause("C13.3", "PrepareHeader: Time = max(parent.Time, now in whole seconds); ParentHash, Height and MinerAddress are derived from the same parent header")
@@ -592,4 +402,204 @@ func c13(c *core.Ctx) {
 	c.NotDecidedf("slot arithmetic is NOT decided: uniqueness of the in-turn deputy per instant, rotation by rank (GetDeputyByDistance), the modulo/window computation in GetCorrectMiner, that GetNextMineWindow is the earliest unfinished slot and agrees with GetCorrectMiner at window boundaries — these quantify over integers and deputy tables")
 	c.NotDecidedf("that the miner loop wakes up inside its own window (timers, wall clock), and the one-second tolerance of verifyTime")
 	c.NotDecidedf("writes to the header through packages outside the scanned scope (storage, RLP reflection, logging) — they are handed values or decode into fresh objects; stated as trusted base, not decided")
+}
+
+// c13HeaderImmutable is clause C13.2 (the checked header fields are not changed between the check and the signature); evaluated under
+// C01.7 as well: the block is executed with the header's time, so a time written after execution makes the miner's result differ from
+// what every validator computes from the sealed header.
+func c13HeaderImmutable(c *core.Ctx) {
+	const cons = "chain/consensus"
+	hdr := func(f string) *types.Var { return c.FieldVar("chain/types.Header", f) }
+	checked := []string{"Time", "MinerAddress", "Height", "ParentHash"}
+	_ = hdr
+	var fields []*types.Var
+	for _, f := range checked {
+		fields = append(fields, hdr(f))
+	}
+	allowed := []string{
+		"(*chain/consensus.BlockAssembler).PrepareHeader", // builds the header, before the check
+		"(*chain/types.Header).DecodeRLP",                 // codec, into the header being decoded
+		"(*chain/types.Header).UnmarshalJSON",             // generated codec
+		"(*chain.Genesis).ToBlock",                        // genesis header
+	}
+	writers := map[*ssa.Function]bool{}
+	for _, f := range fields {
+		sites := closedWriters(c, "Header."+f.Name(), allowed, fieldStores(c, f))
+		for _, s := range sites {
+			writers[core.Outer(s.Fn)] = true
+		}
+		c.Floor("Header."+f.Name()+"-writers", len(sites), 3)
+	}
+	ss := structStores(c, c.Named("chain/types.Header"))
+	c.Check("Header:no-whole-struct-store", "who-may-write", len(ss) == 0, token.NoPos, "no `*h = Header{...}` through a pointer that is not a fresh local (%d found)", len(ss))
+
+	// what can run below DPoVP.MineBlock once the header has been prepared, up to and including the assembler call (which signs)
+	mine := c.Fn(cons + ".DPoVP.MineBlock")
+	pcs := core.CallsIn(mine, c.Method(cons+".BlockAssembler", "PrepareHeader"))
+	asms := core.CallsIn(mine, c.Method(cons+".BlockAssembler", "MineBlock"))
+	if len(pcs) != 1 || len(asms) != 1 {
+		c.Undecided("MineBlock:window", "write-set", mine.Pos(), "needs exactly one PrepareHeader and one assembler.MineBlock call")
+		return
+	}
+	byName := methodIndex(c)
+	var roots []*ssa.Function
+	for _, ci := range core.AllCalls(mine) {
+		if ci == pcs[0] || !core.ReachableAfter(pcs[0], ci) {
+			continue
+		}
+		if ci != asms[0] && core.ReachableAfter(asms[0], ci) {
+			continue // after the block has been signed
+		}
+		if _, isDefer := ci.(*ssa.Defer); isDefer {
+			continue
+		}
+		roots = append(roots, calleeFuncs(byName, ci)...)
+	}
+	scope := func(fn *ssa.Function) bool {
+		rel := core.RelPkg(fn)
+		if isTestHelper(c, fn) {
+			return false
+		}
+		// the engine, execution, accounts, VM, block types, pool and deputy table; logging, metrics, storage and the RLP reflection layer are
+		// leaves (they are handed values, never the *Header under construction)
+		for _, p := range []string{"chain/consensus", "chain/transaction", "chain/account", "chain/vm", "chain/types", "chain/txpool", "chain/deputynode", "chain/params", "common/crypto", "common/merkle"} {
+			if rel == p || strings.HasPrefix(rel, p+"/") {
+				return true
+			}
+		}
+		return false
+	}
+	r := reachBelow(c, roots, scope)
+	c.Floor("functions-below-MineBlock-after-prepare", len(r), 150)
+	for _, must := range []string{"chain/transaction.TxProcessor.ApplyTxs", cons + ".BlockAssembler.Finalize", cons + ".BlockAssembler.Seal", cons + ".SignBlock", "chain/types.NewBlock", "chain/transaction.NewEVMContext"} {
+		c.CheckTrivial("reach-control/"+must[strings.LastIndex(must, "/")+1:], "positive-control", r[c.Fn(must)], token.NoPos, "%s must be in the computed reach set (otherwise the write-set scan is vacuous)", must)
+	}
+	var bad []string
+	for w := range writers {
+		if r[w] {
+			bad = append(bad, core.FuncName(w))
+		}
+	}
+	sort.Strings(bad)
+	c.Check("no-writer-of-checked-fields-below-MineBlock", "write-set", len(bad) == 0, asms[0].Pos(),
+		"no function that stores into Header.Time/MinerAddress/Height/ParentHash may run between PrepareHeader and the signature (%d functions scanned; offenders: %s)", len(r), strings.Join(bad, ", "))
+	// the same scan, per store, for every function in the reach set (a new writer shows up here with its position)
+	n := 0
+	for fn := range r {
+		for _, s := range fieldStoresInW3(fn, fields...) {
+			n++
+			c.Check("store-below-MineBlock:"+shortFn(fn)+"#"+s.Field.Name(), "write-set", false, s.St.Pos(), "%s stores into Header.%s and can run between PrepareHeader and the signature", shortFn(fn), s.Field.Name())
+		}
+	}
+	c.Note("C13.2: %d functions may run below DPoVP.MineBlock between PrepareHeader and the signature; %d stores into checked header fields among them", len(r), n)
+
+	// Seal: the sealed header is the given header or its Copy(), and Seal stores nothing but execution products into it
+	seal := c.Fn(cons + ".BlockAssembler.Seal")
+	hset := core.Derived(seal.Params[1])
+	for _, cp := range core.CallsIn(seal, c.Method("chain/types.Header", "Copy")) {
+		if hset[cp.Common().Args[0]] {
+			for v := range core.Derived(cp.Value()) {
+				hset[v] = true
+			}
+		}
+	}
+	{
+		products := map[string]bool{"VersionRoot": true, "LogRoot": true, "TxRoot": true, "GasUsed": true, "DeputyRoot": true}
+		st := c.Struct("chain/types.Header")
+		var all []*types.Var
+		for i := 0; i < st.NumFields(); i++ {
+			all = append(all, st.Field(i))
+		}
+		k := 0
+		var walk func(fn *ssa.Function)
+		walk = func(fn *ssa.Function) {
+			for _, s := range fieldStoresInW3(fn, all...) {
+				k++
+				base := s.St.Addr.(*ssa.FieldAddr).X
+				c.Check("Seal:store#"+s.Field.Name(), "write-set", hset[base] && products[s.Field.Name()], s.St.Pos(),
+					"Seal may only store execution products, and only into the header it seals (field %s)", s.Field.Name())
+			}
+			for _, a := range fn.AnonFuncs {
+				walk(a)
+			}
+		}
+		walk(seal)
+		c.Floor("Seal/header-stores", k, 5)
+		nb := core.CallsIn(seal, c.FuncObj("chain/types.NewBlock"))
+		okNB := len(nb) == 1 && hset[nb[0].Common().Args[0]]
+		if okNB {
+			d := core.Derived(nb[0].Value())
+			for _, ret := range core.Returns(seal) {
+				if !d[core.RetVal(ret, 0)] {
+					okNB = false
+				}
+			}
+		}
+		c.Check("Seal:returns NewBlock(header or header.Copy())", "value-flow", okNB, seal.Pos(), "the sealed block carries the checked header (or its field-by-field copy)")
+	}
+	// Header.Copy returns a fresh cell initialised from the receiver
+	cpFn := c.Fn("chain/types.Header.Copy")
+	okFresh := len(core.Returns(cpFn)) > 0
+	for _, ret := range core.Returns(cpFn) {
+		al, isAl := ret.Results[0].(*ssa.Alloc)
+		if !isAl {
+			okFresh = false
+			continue
+		}
+		init := false
+		for _, ref := range *al.Referrers() {
+			if st, isSt := ref.(*ssa.Store); isSt && st.Addr == al {
+				if ld, isLd := st.Val.(*ssa.UnOp); isLd && ld.Op == token.MUL && ld.X == cpFn.Params[0] {
+					init = true
+				}
+			}
+		}
+		if !init {
+			okFresh = false
+		}
+	}
+	c.Check("Header.Copy:fresh cell ← *h", "value-flow", okFresh, cpFn.Pos(), "Copy returns a new Header initialised with every field of the receiver")
+	nbFn := c.Fn("chain/types.NewBlock")
+	okHdr := false
+	for _, s := range fieldStoresInW3(nbFn, c.FieldVar("chain/types.Block", "Header")) {
+		okHdr = s.St.Val == nbFn.Params[0]
+	}
+	c.Check("NewBlock:Header←header param", "value-flow", okHdr, nbFn.Pos(), "NewBlock keeps the header pointer it is given")
+
+	// BlockAssembler.MineBlock: executes and seals the checked header, signs the hash of the sealed block, then only adds the signature
+	am := c.Fn(cons + ".BlockAssembler.MineBlock")
+	sealObj := c.Method(cons+".BlockAssembler", "Seal")
+	sign := c.FuncObj(cons + ".SignBlock")
+	seals := core.CallsIn(am, sealObj)
+	signs := core.CallsIn(am, sign)
+	okAM := len(seals) == 1 && len(signs) == 1
+	if okAM {
+		okAM = seals[0].Common().Args[1] == am.Params[1] && core.Dominates(seals[0], signs[0]) &&
+			sliceCallOn(core.Slice(signs[0].Common().Args[0]), c.Method("chain/types.Block", "Hash"), seals[0].Value())
+		for _, g := range core.CallsIn(am, c.Method("chain/transaction.TxProcessor", "ApplyTxs")) {
+			if g.Common().Args[1] != am.Params[1] || !core.Dominates(g, seals[0]) {
+				okAM = false
+			}
+		}
+		d := core.Derived(seals[0].Value())
+		for _, ret := range core.Returns(am) {
+			if v := core.RetVal(ret, 0); !core.IsNilConst(v) && !d[v] {
+				okAM = false
+			}
+		}
+	}
+	c.Check("assembler.MineBlock:Seal(checked header)≺SignBlock(sealed.Hash)", "order", okAM, am.Pos(), "the block that is signed and returned is the sealed copy of the checked header")
+	heeded(c, am, sign, core.ErrNonNil, 1, nil)
+	if okAM {
+		st := c.Struct("chain/types.Header")
+		var all []*types.Var
+		for i := 0; i < st.NumFields(); i++ {
+			all = append(all, st.Field(i))
+		}
+		sig := core.ResultValues(signs[0])[0]
+		for _, s := range fieldStoresInW3(am, all...) {
+			ok := s.Field.Name() == "SignData" && sig != nil && core.Derived(sig)[s.St.Val] && core.Dominates(signs[0], s.St)
+			c.Check("assembler.MineBlock:store#"+s.Field.Name(), "write-set", ok, s.St.Pos(), "after sealing, the only header store is SignData ← SignBlock's result")
+		}
+	}
 }
